@@ -199,6 +199,12 @@ func init() {
 			vx.Job{Scenario: "e2e.route", Params: vx.P("numconn", "0", "apps", "2", "sizes", "5,5"), Bound: b(1, 2), Weight: 6},
 			vx.Job{Scenario: "e2e.route", Params: vx.P("numconn", "3", "apps", "3", "sizes", "1", "method", "plain", "closeby", "proxy"), Bound: b(0, 1), Weight: 6},
 			vx.Job{Scenario: "e2e.route", Params: vx.P("numconn", "0", "apps", "1", "sizes", "20000", "method", "chacha20-poly1305", "closeby", "proxy"), Bound: b(1, 2), Weight: 8},
+			// long-lived, regularly used connections (5 requests 100 s apart: beyond the 300 s stream timeout, never idle that long)
+			vx.Job{Scenario: "e2e.route", Params: vx.P("numconn", "2", "apps", "1", "sizes", "5", "rounds", "5", "gap", "100"), Bound: b(1, 2), Weight: 5},
+			vx.Job{Scenario: "e2e.route", Params: vx.P("numconn", "0", "apps", "2", "sizes", "5", "rounds", "5", "gap", "100"), Bound: b(0, 1), Weight: 5},
+			// a slow consumer: 6 MiB unread on one stream, which is then given up; the other stream keeps working
+			vx.Job{Scenario: "mux.backlog", Params: vx.P("mb", "6", "close", "1"), Bound: b(0, 1), Weight: 4},
+			vx.Job{Scenario: "mux.backlog", Params: vx.P("mb", "6", "close", "0"), Bound: 0, Weight: 4},
 		)
 		for i := range jobs {
 			jobs[i].BudgetS = budget
